@@ -24,6 +24,7 @@ import PcProofs.SafetyP2Region
 import PcProofs.P2LoopEx
 import PcProofs.SafetyLB
 import PcProofs.SafetySigmaTop
+import PcProofs.SafetyTrivial
 
 namespace Pc.C16Safety
 open Pc.P2L Pc.LB Pc.Safety Finset
@@ -192,6 +193,21 @@ theorem Sigma_64_no_overflow_partial {t : NT} {x y : ℕ} (D : SigmaDom t x y) (
     sigmaC (2 ^ 63 - 1) t .i64 x y = liftL (sigma t .i64 x y) :=
   sigmaC_eq_partial D hy2 hsc (le_trans hy2 (le_trans hx (by decide))) h63 (by omega)
 
+/-! ## S2_trivial (S2_trivial.cpp) (WP safety2) -/
+
+/-- **`S2_trivial(x, y, z, c)` stores no value outside its type**: valid table reaching `y < 2^63`, `y² ≤ tMax` (the size condition of
+    the checked product `(T) prime * prime`; in Deleglise-Rivat `y² ≤ x ≤ tMax`): whenever the unchecked mirror returns the defining sum
+    (`C08Leaf.s2_trivial_loop_eq_executable` gives its hypotheses), every `int64_t` difference `pi_y - pi[xpp]`, `pi[y-1] - pi[prime]`, …,
+    every prefix of `T sum` (non-negative terms), `n`, `a1`, `a2`, `a1 + a2`, `n * (a1 + a2)`, `/ 2` and the final `sum += …` lie in
+    their types (`S2_trivial ≤ π(y)² ≤ y²`), and the checked mirror returns the same value.  Both widths, no bound on `x`. -/
+theorem S2_trivial_no_overflow {t : NT} (hv : t.Valid) {tMax : ℕ} {w : ITy} {x y z c : ℕ} (hyb : y ≤ t.bound)
+    (hy63 : y < 2 ^ 63) (hyM : y * y ≤ tMax) (h : s2Trivial t w x y z c = .ok (t.S2trivial x y z c)) :
+    s2TrivialC tMax t w x y z c = .ok (t.S2trivial x y z c) := by
+  refine s2TrivialC_of hv hyb (by omega) hyM h ?_
+  have := S2trivial_le hv (x := x) z c hyb
+  have h2 : (y : ℤ) * y ≤ tMax := by exact_mod_cast hyM
+  omega
+
 /-! ## LoadBalancerS2: whole histories -/
 
 /-- **The whole-history int64 safety of `LoadBalancerS2` is FALSE inside the range the public API guarantees**
@@ -292,6 +308,12 @@ example : sigmaC (2 ^ 63 - 1) (NT.build 2000) .i64 100000 60 = liftL (sigma (NT.
         exact Nat.lt_succ_iff.1 (Nat.sqrt_lt.2 (by norm_num)))
     (by show 2000 ≤ ITy.i64.maxVal; decide)
 
+/-- `S2_trivial(2000, 20, 100, 2) = 5` (one loop term `π(20) - π(16) = 2`, closed form `3 · (0 + 2) / 2 = 3`): the checked mirror
+    returns it with `tMax = 6` and reports the overflow of `n * (a1 + a2) = 6`… no: of `sum + 3 = 5 > 4` / the product with `tMax = 4` -/
+example : (s2TrivialC 6 (NT.build 100) .i64 2000 20 100 2).toOption = some 5 := by decide +kernel
+example : (s2TrivialC 4 (NT.build 100) .i64 2000 20 100 2).toOption = none := by decide +kernel
+example : (s2Trivial (NT.build 100) .i64 2000 20 100 2).toOption = some 5 := by decide +kernel
+
 /-- the checked closed forms are not vacuous: in a 7-bit `T` (`tMax = 63`) `Sigma3(10, 0)` overflows (`10 * 9 * 19 = 1710`) -/
 example : sigma3C 63 10 0 = .error .ovfClosed := by decide
 example : sigma3C 2000 10 0 = .ok 275 := by decide
@@ -318,3 +340,4 @@ end Pc.C16Safety
 #print axioms Pc.C16Safety.Sigma_no_overflow_partial
 #print axioms Pc.C16Safety.Sigma_128_no_overflow
 #print axioms Pc.C16Safety.Sigma_64_no_overflow_partial
+#print axioms Pc.C16Safety.S2_trivial_no_overflow
